@@ -580,6 +580,40 @@ def overlap_profile(seed):
 PROFILES["term"] = term_profile
 
 
+def isolate(seed):
+    """C01: one watcher's trouble stays its own.  Two or three watchers with different priorities; from some moment on
+    every spawn of ONE of them fails with an exception spawn_process does not catch (so its manage_processes raises in
+    every periodic check); workers of the others die, are killed, are counted up and down: they must converge as if
+    the faulty watcher were not there."""
+    import random
+    rng = random.Random(seed)
+    names = ["w1", "w2", "w3"][:rng.choice([2, 3, 3])]
+    prios = rng.sample([0, 1, 2, 3], len(names))
+    ws = [{"name": n, "np": rng.choice([1, 2]), "G": 0.1, "W": 0.0, "priority": prios[i]} for i, n in enumerate(names)]
+    bad = rng.choice(names)
+    good = [n for n in names if n != bad]
+    s = [{"op": "boot"}, {"op": "tick", "n": rng.randint(2, 6)}, {"op": "badspawn", "w": bad},
+         {"op": "die", "sel": [bad, 0], "status": rng.choice(scenario.EXIT_STATUSES)}, {"op": "tick", "n": rng.randint(3, 9)}]
+    for _ in range(rng.randint(2, 5)):
+        g = rng.choice(good)
+        r = rng.random()
+        if r < 0.45:
+            s.append({"op": "die", "sel": [g, rng.randint(0, 1)], "status": rng.choice(scenario.EXIT_STATUSES)})
+        elif r < 0.7:
+            s.append({"op": "extkill", "sel": [g, rng.randint(0, 1)]})
+        elif r < 0.85:
+            s.append({"op": "req", "cmd": rng.choice(["incr", "decr"]), "props": {"name": g, "nb": 1, "waiting": rng.random() < 0.5}})
+        else:
+            s.append({"op": "req", "cmd": "set", "props": {"name": g, "options": {"numprocesses": rng.choice([1, 2, 3])}}})
+        s.append({"op": "tick", "n": rng.randint(2, 12)})
+    s.append({"op": "end", "xprobe": True, "passes": 3})
+    return {"seed": seed, "watchers": ws, "check_delay": rng.choice([0.5, 1.0]), "warmup_delay": 0.0,
+            "stubborn": [], "obeys": [True], "instant_death": False, "script": s}
+
+
+PROFILES["isolate"] = isolate
+
+
 _SHUTDOWN_BASE = PROFILES["shutdown"]
 
 
